@@ -171,7 +171,7 @@ pub fn def(ctx: &Ctx) -> PropDef {
         let (n, big) = if ty == Ty::Jitter { (8, 40) } else { (14, 1200) };
         subs.push(PSub::boxed(
             format!("pairs/{}", ty.name()),
-            t.pick(if ty == Ty::Jitter { 600 } else { 1200 }, 100_000),
+            t.pick(if ty == Ty::Jitter { 1200 } else { 3000 }, 200_000),
             move || {
                 (gens::any_spec(ty), gens::any_spec(ty), gens::ops(&info, n, big, false))
                     .prop_map(move |(a, mut b, ops)| {
@@ -188,7 +188,7 @@ pub fn def(ctx: &Ctx) -> PropDef {
     }
     subs.push(PSub::boxed(
         "cores",
-        t.pick(1500, 100_000),
+        t.pick(4000, 300_000),
         || (0u8..3, gens::seed_for(Ty::Isaac, true), gens::seed_for(Ty::Isaac, true), 0usize..=4).prop_map(|(which, a, b, blocks)| CoreCase { which, a, b, blocks }).boxed(),
         check_core,
     ));
